@@ -24,7 +24,7 @@ type Op struct {
 	SQL    string
 	InTx   bool
 	Caller string // first pegnetd frame (only if Hooks.WantCaller)
-	GID    uint64 // goroutine id hint (only if WantCaller)
+	Stack  []string // all pegnetd frames, innermost first (only if WantCaller)
 }
 
 func (o *Op) IsWrite() bool {
@@ -113,7 +113,10 @@ func (c *connector) h() *Hooks { return c.hooks.Load().(*Hooks) }
 func (c *connector) op(cn *conn, kind, q string) *Op {
 	o := &Op{Seq: atomic.AddInt64(&c.seq, 1), Conn: cn.id, Kind: kind, SQL: q, InTx: cn.inTx}
 	if c.h().WantCaller {
-		o.Caller = caller()
+		o.Stack = CallerStack()
+		if len(o.Stack) > 0 {
+			o.Caller = o.Stack[0]
+		}
 	}
 	return o
 }
